@@ -227,7 +227,7 @@ impl Request {
         use crate::Response;
 
         #[cfg(ohkami_verif)] crate::__verif::emit("read-start", 0, 0);
-        let len = match stream.read(&mut *self.__buf__).await {
+        let mut len = match stream.read(&mut *self.__buf__).await {
             Ok (0) => return Ok(None),
             Err(e) => return match e.kind() {
                 std::io::ErrorKind::ConnectionReset => Ok(None),
@@ -240,6 +240,19 @@ impl Request {
             Ok(n) => {crate::__verif::emit("read", n, 0); n}
             Ok(n) => n
         };
+        /* the head may arrive in more than one segment */
+        while !{
+            let arrived = &self.__buf__[..len];
+            arrived.windows(4).any(|w| w == b"\r\n\r\n") || arrived.windows(2).any(|w| w == b"\n\n")
+        } {
+            if len == BUF_SIZE {
+                return Err(Response::RequestHeaderFieldsTooLarge())
+            }
+            match stream.read(&mut self.__buf__[len..]).await {
+                Ok(0) | Err(_) => return Ok(None),
+                Ok(n) => len += n
+            }
+        }
 
         let mut r = Reader::new(unsafe {
             // pass detouched bytes
